@@ -108,7 +108,24 @@ def resize_spec(P, raw, r_src, L, R, kind, rnd, sat):
     return P.wrap(v, W, kind == "S")
 
 
+def exact_scaled(P, raw, r_src, R, rnd):
+    """exact (rounded / truncated) value in units of 2**R, before any overflow handling"""
+    if r_src >= R:
+        return raw * (1 << (r_src - R))
+    k = R - r_src
+    q = P.shr(raw, k)
+    if rnd:
+        rem = raw - P.shl(q, k) if not isinstance(q, int) else raw - (q << k)
+        half = 1 << (k - 1)
+        odd = P.band(q, P.const(1)) == 1
+        up = P.lor(rem > half, P.land(rem == half, odd))
+        q = q + P.b2i(up)
+    return q
+
+
 def resize_cells(fmts, rng, n_pairs):
+    """saturating cells are split into three separately decided obligations (value in range / above
+    the maximum / below the minimum) so that a finding names the exact case"""
     cs = []
     pairs = list(itertools.product(fmts, fmts))
     rng.shuffle(pairs)
@@ -117,12 +134,19 @@ def resize_cells(fmts, rng, n_pairs):
             ws, wt = fs[0] - fs[1] + 1, ft[0] - ft[1] + 1
             if kind == "S" and (ws < 2 or wt < 2):
                 continue
+            lo, hi = (-(1 << (wt - 1)), (1 << (wt - 1)) - 1) if kind == "S" else (0, (1 << wt) - 1)
             for rnd, sat in itertools.product((False, True), (False, True)):
                 args = f"{ft[0]}, {ft[1]}, std.FixedRoundStyle.{'ROUND' if rnd else 'TRUNCATE'}, std.FixedOverflowStyle.{'SATURATE' if sat else 'WRAP'}"
                 body = f"x = std.from_bits[{fx(kind, *fs)}]({{a}})\n{{o}} <<= std.to_bits(x.resize({args})).{'signed' if kind == 'S' else 'unsigned'}"
-                cs.append(Cell(f"resize|{kind}|{fs[0]}:{fs[1]}->{ft[0]}:{ft[1]}|{'round' if rnd else 'trunc'}|{'sat' if sat else 'wrap'}",
-                               [("a", Ty("BV", ws))], Ty(kind, wt), body,
-                               lambda P, a, kind=kind, ws=ws, fs=fs, ft=ft, rnd=rnd, sat=sat: resize_spec(P, _m(P, a, kind, ws), fs[1], ft[0], ft[1], kind, rnd, sat)))
+                base = f"resize|{kind}|{fs[0]}:{fs[1]}->{ft[0]}:{ft[1]}|{'round' if rnd else 'trunc'}|{'sat' if sat else 'wrap'}"
+                spec = lambda P, a, kind=kind, ws=ws, fs=fs, ft=ft, rnd=rnd, sat=sat: resize_spec(P, _m(P, a, kind, ws), fs[1], ft[0], ft[1], kind, rnd, sat)
+                ev = lambda P, a, kind=kind, ws=ws, fs=fs, ft=ft, rnd=rnd: exact_scaled(P, _m(P, a, kind, ws), fs[1], ft[1], rnd)
+                if not sat:
+                    cs.append(Cell(base + "|any", [("a", Ty("BV", ws))], Ty(kind, wt), body, spec))
+                else:
+                    cs.append(Cell(base + "|in-range", [("a", Ty("BV", ws))], Ty(kind, wt), body, spec, assume=lambda P, a, ev=ev, lo=lo, hi=hi: P.land(ev(P, a) >= lo, ev(P, a) <= hi)))
+                    cs.append(Cell(base + "|above-max", [("a", Ty("BV", ws))], Ty(kind, wt), body, spec, assume=lambda P, a, ev=ev, hi=hi: ev(P, a) > hi))
+                    cs.append(Cell(base + "|below-min", [("a", Ty("BV", ws))], Ty(kind, wt), body, spec, assume=lambda P, a, ev=ev, lo=lo: ev(P, a) < lo))
     return cs
 
 
@@ -188,7 +212,7 @@ def run(tier: str) -> int:
                 counts[res.status] = counts.get(res.status, 0) + 1
                 key = res.cell.key
                 parts = key.split("|")
-                fam = "|".join(parts[:2]) if parts[0] != "resize" else f"resize|{parts[1]}|{parts[3]}|{parts[4]}"
+                fam = "|".join(parts[:2]) if parts[0] != "resize" else f"resize|{parts[1]}|{parts[3]}|{parts[4]}|{parts[5]}"
                 if res.status == "ok":
                     rep.stats.nontrivial.add(key)
                     if len(rep.stats.samples) < 4 and parts[0] in ("resize", "mul"):
@@ -224,7 +248,8 @@ def _shape(parts):
         s, t = parts[2].split("->")
         sl, sr = map(int, s.split(":"))
         tl, tr = map(int, t.split(":"))
-        return f"left{_rel(tl, sl)}|right{_rel(tr, sr)}"
+        pos = "target-above-source" if tr > sl else ("target-below-source" if tl < sr else "overlap")
+        return f"{pos}|left{_rel(tl, sl)}|right{_rel(tr, sr)}"
     return "any"
 
 
